@@ -199,6 +199,24 @@ def run(report, p):
     rets = [n for n in walk_no_nested(lgn.node) if isinstance(n, ast.Return)]
     loops = [n for n in walk_no_nested(lgn.node) if isinstance(n, ast.For)]
     r3.check(len(loops) == 1 and is_plain_iter(p, loops[0].iter) and norm(loops[0].iter).endswith("hash_lists"), lgn, lgn.node, "latest_generation_number does not scan all generations", construct="latest_generation_number")
+    # every value it can return is a number read from a manifest that was actually loaded (or the constant start value):
+    # the chain file lags behind the manifests after an interrupted run, a number taken from it can be one that is already used
+    for rt in rets:
+        if rt.value is None:
+            continue
+        for o in pr.origins(rt.value, lgn):
+            for t in alts(o):
+                while t[0] == "call" and t[1] in ("builtin:int", "builtin:max") and len(t[2]) >= 1 and all(x[0] == "const" for x in t[2][1:]):
+                    t = t[2][0]
+                if t[0] == "const" and isinstance(t[1], int):
+                    continue
+                if t[0] == "attr" and t[2] == "generation_number" and t[1][0] == "elem" and t[1][1][0] == "attr" and t[1][1][2] == "hash_lists" and t[1][1][1][0] == "self":
+                    continue
+                from_chain = any(s[0] == "attr" and s[2] in ("chain", "generations") for s in subterms(t))
+                if from_chain:
+                    r3.check(False, lgn, rt, f"latest_generation_number can return a number that does not come from the loaded manifests but from the chain file ({show(t)[:90]}): after an interrupted run the chain lacks the last manifest and the next generation re-uses its number", construct="latest number source: chain")
+                else:
+                    raise AnalysisError(f"{lgn.loc(rt)}: latest_generation_number returns a value whose source this checker does not model: {show(t)[:120]}")
 
     # ------------------------------------------------------------------ R4.4
     r4 = report.rule("R4.4", "gating: a digest in a format that is new for the file is appended only under a flag that is cleared whenever an already recorded format failed to verify; recorded formats are appended first", 2)
